@@ -292,3 +292,17 @@ pub fn gen_c02(rng: &mut Rng, tier: Tier, out: &mut Vec<String>) {
                 out.push(format!("detinv q {}", s)); } }
     }
 }
+
+/// independent exact solve over Q (first non-zero pivot); None when singular
+pub fn exact_solve(a: &Rows<Q>, b: &[Q]) -> Option<Vec<Q>> {
+    let n = a.len();
+    let mut m: Vec<Vec<Q>> = a.iter().zip(b).map(|(r, x)| { let mut r = r.clone(); r.push(*x); r }).collect();
+    for col in 0..n {
+        let p = (col..n).find(|r| !m[*r][col].is_zero())?;
+        m.swap(p, col);
+        for r in 0..n { if r != col && !m[r][col].is_zero() {
+            let f = m[r][col] / m[col][col];
+            for c in col..=n { let t = m[col][c]; m[r][c] = m[r][c] - f * t; } } }
+    }
+    Some((0..n).map(|i| m[i][n] / m[i][i]).collect())
+}
